@@ -73,6 +73,74 @@ add("c01_twin", "c01::twin", ["C01"], "witness twin: a deliberately false claim 
 
 
 # ------------------------------------------------------------------------------------------------
+# C02 / C03
+# ------------------------------------------------------------------------------------------------
+prop("C02",
+     bounds="full domain, loop-free: all 2^21 valid (status, data1, data2) triples (one solver query per "
+            "status high nibble 0x8..0xF and implementation), implementations RawShortMessage, "
+            "StructuredShortMessage, byte-getter-only third-party implementor and one overriding "
+            "to_bytes; all 256 u8 for the ShortMessageType conversion",
+     outside="third-party implementors that violate the trait contract (status byte < 0x80)")
+prop("C03",
+     bounds="full domain, loop-free: all 2^21 valid triples; all 16 ordered pairs of the four "
+            "implementations for to_other/from_other/to_structured; every trait method",
+     outside="third-party implementors other than the two harness-defined ones")
+IMPLS = ["raw", "structured", "foreign", "foreignbytes"]
+for _hi in range(8, 16):
+    for _imp in range(4):
+        add("c02_classify_%x_%s" % (_hi, IMPLS[_imp]), "c02::classify", ["C02", "C04", "C18"],
+            "all valid triples with status 0x%X0..0x%XF x all data bytes, implementation %s: every "
+            "accessor vs. the MIDI 1.0 table" % (_hi, _hi, IMPLS[_imp]),
+            args="%d, %d" % (_hi, _imp), cost=15 if _hi < 15 else 40)
+    add("c03_obs_equal_%x" % _hi, "c03::obs_equal", ["C03", "C18"],
+        "all valid triples with status 0x%X0..0x%XF: observation of every trait method equal across "
+        "the four implementations" % (_hi, _hi), args="%d" % _hi, cost=40)
+    for _imp in range(4):
+        add("c03_conversions_%x_%s" % (_hi, IMPLS[_imp]), "c03::conversions", ["C03", "C01", "C18"],
+            "all valid triples with status 0x%X0..0x%XF, source %s: to_other/from_other/to_structured to "
+            "all four implementations commute" % (_hi, _hi, IMPLS[_imp]),
+            args="%d, %d" % (_hi, _imp), cost=25)
+add("c02_twin", "c02::twin", ["C02", "C03"], "witness twin", expect="witness_fail")
+
+# ------------------------------------------------------------------------------------------------
+# C06
+# ------------------------------------------------------------------------------------------------
+prop("C06",
+     bounds="full domain, loop-free: all argument tuples of the 19 named constructors and the 3 generic "
+            "ones (all 23 types x channel x data), for RawShortMessage and StructuredShortMessage; every "
+            "test_util shorthand over all u8/u16 argument values (in-range: equality with the checked "
+            "constructor; out-of-range: must panic)",
+     outside="factory implementations other than RawShortMessage / StructuredShortMessage")
+for _s in (0, 1):
+    _sn = "structured" if _s else "raw"
+    _sb = "true" if _s else "false"
+    for _w, _wn in enumerate(["note_on", "note_off", "control_change", "polyphonic_key_pressure"]):
+        add("c06_%s_%s" % (_wn, _sn), "c06::channel3", ["C06", "C04", "C18"],
+            "%s::%s for all 16x128x128 arguments" % (_sn, _wn), args="%d, %s" % (_w, _sb), cost=10)
+    add("c06_channel2_%s" % _sn, "c06::channel2", ["C06", "C04", "C18"],
+        "%s::{program_change, channel_pressure, pitch_bend_change} for all arguments" % _sn,
+        args=_sb, cost=25)
+    add("c06_system_%s" % _sn, "c06::system", ["C06", "C04", "C18"],
+        "%s system constructors: all 120 quarter frames, all 16384 positions, all 128 song numbers, "
+        "all argument-less constructors" % _sn, args=_sb, cost=40)
+    for _w, _wn in enumerate(["channel_message", "system_common_message", "system_real_time_message"]):
+        add("c06_%s_ok_%s" % (_wn, _sn), "c06::generic_ok", ["C06", "C04", "C18"],
+            "%s::%s for all types of the matching category x all arguments" % (_sn, _wn),
+            args="%d, %s" % (_w, _sb), cost=20)
+        add("c06_%s_must_panic_%s" % (_wn, _sn), "c06::generic_must_panic", ["C06", "C18"],
+            "%s::%s for all types of another category x all arguments: must panic" % (_sn, _wn),
+            args="%d, %s" % (_w, _sb), expect="must_panic", cost=5)
+for _g in range(4):
+    add("c06_shorthand_ok_g%d" % _g, "c06::shorthand_ok", ["C06", "C18"],
+        "test_util shorthands (group %d) for all in-range primitive arguments equal the checked "
+        "constructors" % _g, args="%d" % _g, cost=30)
+for _w in range(21):
+    add("c06_shorthand_must_panic_%02d" % _w, "c06::shorthand_must_panic", ["C06", "C18"],
+        "test_util shorthand #%d: every out-of-range argument combination panics" % _w,
+        args="%d" % _w, expect="must_panic", cost=4)
+add("c06_twin", "c06::twin", ["C06"], "witness twin", expect="witness_fail")
+
+# ------------------------------------------------------------------------------------------------
 
 def all_harnesses():
     import gen
